@@ -292,6 +292,40 @@ func c01Failures(e *drv.Env) {
 	}
 }
 
+// c01TraceComplete applies every recorded (performed) call to an empty image and compares with the real file.
+func c01TraceComplete(e *drv.Env) {
+	if _, err := os.Stat(e.Path); err != nil {
+		return // the history never opened the database
+	}
+	var img []byte
+	for i, ev := range e.Trace {
+		if ev.Failed {
+			continue
+		}
+		switch ev.Kind {
+		case "W":
+			img = applyItem(img, pendItem{off: ev.Off, data: ev.Data, ev: i}, nil)
+		case "T":
+			if int64(ev.Size) < int64(len(img)) {
+				img = img[:ev.Size]
+			} else {
+				img = applyItem(img, pendItem{trunc: int64(ev.Size), ev: i}, nil)
+			}
+		}
+	}
+	real, err := os.ReadFile(e.Path)
+	if err != nil {
+		inconclusive(fmt.Sprintf("cannot read the data file: %v", err))
+	}
+	if !bytes.Equal(img, real) {
+		n := 0
+		for n < len(img) && n < len(real) && img[n] == real[n] {
+			n++
+		}
+		inconclusive(fmt.Sprintf("the recorded I/O calls do not reproduce the data file (replayed %d bytes, file has %d, first difference at offset %d): a write bypasses the verif hook", len(img), len(real), n))
+	}
+}
+
 type c01Doc struct {
 	Ev     int    `json:"crash_after_event"`
 	Subset string `json:"subset"`
@@ -332,6 +366,9 @@ func c01Record(log []drv.Op) ([]c01Point, int, *drv.Violation) {
 		return nil, 0, out
 	}
 	_ = e.CloseDB()
+	// sanity of the instrumentation: replaying the recorded calls must reproduce the file byte for byte;
+	// if it does not, some write bypasses the hook and nothing this check says could be trusted
+	c01TraceComplete(e)
 	find := func(i int) span {
 		s := spans[0]
 		for _, sp := range spans {
